@@ -836,6 +836,12 @@ impl Sim {
     }
     /// direct `is_claim_valid` on the issuer
     fn valid(&mut self, t: &mut Trace, d: usize, c: &ClaimSpec) -> bool {
+        if c.issuer == 7 {
+            // index 7 is the harness's NON-conforming issuer (answers with a bool): what its own
+            // `is_claim_valid` returns is not a statement about the library; it is only ever reached
+            // through `add_claim` / `verify_identity`, where its answer must never count
+            return false;
+        }
         let e = &self.e;
         let x = args(e, [self.a(d), v(e, c.topic), v(e, c.scheme), v(e, Bytes::from_slice(e, &c.sig_data)), v(e, Bytes::from_slice(e, &c.data))]);
         self.run(t, format!("id valid d={} {}", d, self.claim_fields(c)), c.issuer, "is_claim_valid", x)
